@@ -1,9 +1,13 @@
 #!/usr/bin/env python3
-"""tools/baseline.py — record /repo's HEAD as the tree the checks were accepted on (tools/baseline.json).
-lib/runner.py runs its escalated search when the Go sources differ from that tree; run this after the
-acceptance run whenever a `fix:` commit has been added to /repo."""
-import json, os, subprocess
+"""tools/baseline.py — record the tree the checks were accepted on (tools/baseline.json): /repo's HEAD (for information) and
+the CONTENT digest of its Go sources (lib/srcdigest.py), which is what lib/runner.py compares: it runs its escalated search
+when the Go sources differ from that tree. A restore or snapshot that re-commits the same sources under another commit id
+is the same tree. Run this after the acceptance run whenever a `fix:` commit has been added to /repo."""
+import json, os, subprocess, sys
 V = os.path.dirname(os.path.dirname(os.path.abspath(__file__)))
+sys.path.insert(0, V)
+from lib import srcdigest  # noqa: E402
 head = subprocess.run(["git", "-C", "/repo", "rev-parse", "HEAD"], capture_output=True, text=True).stdout.strip()
-json.dump({"repo_head": head}, open(os.path.join(V, "tools", "baseline.json"), "w"), indent=1)
-print("baseline", head)
+dg = srcdigest.digest("/repo")
+json.dump({"repo_head": head, "go_sources_sha1": dg}, open(os.path.join(V, "tools", "baseline.json"), "w"), indent=1)
+print("baseline", head, dg)
